@@ -18,6 +18,7 @@ type engineMon struct {
 	quiet     int
 	forcedOK  bool // C13 evaluated
 	aloneAt   int  // deck position when only one player was left (-1 = n/a)
+	lastRaise int64 // ghost: size of the last bet or full raise of the round (the big blind before any)
 	lastBoard int
 }
 
@@ -276,17 +277,23 @@ func (m *engineMon) afterOp(opLine string, pre *pokerface.GameState, err error) 
 		if pre.Status.CurrentEvent != "RoundStarted" {
 			// the round has just been opened
 			first := -1
-			if st.Round == "preflop" {
-				for i := range c.pos {
-					if strings.Contains(c.pos[i], "b") {
-						first = (i + 1) % n
-					}
+			dealer := -1
+			for i := range c.pos {
+				if strings.Contains(c.pos[i], "d") {
+					dealer = i // the engine keeps the last seat holding the position
 				}
-			} else {
-				for i := range c.pos {
-					if strings.Contains(c.pos[i], "d") {
-						first = (i + 1) % n
+			}
+			if dealer >= 0 {
+				if st.Round == "preflop" {
+					// left of the big blind: the first seat holding that position clockwise from the dealer
+					for k := 1; k <= n; k++ {
+						if strings.Contains(c.pos[(dealer+k)%n], "b") {
+							first = (dealer + k + 1) % n
+							break
+						}
 					}
+				} else {
+					first = (dealer + 1) % n
 				}
 			}
 			if first >= 0 && st.CurrentPlayer != first {
@@ -296,6 +303,13 @@ func (m *engineMon) afterOp(opLine string, pre *pokerface.GameState, err error) 
 				m.turnSince[i] = false
 			}
 			m.quiet = 0
+			m.lastRaise = 0
+			if st.Round == "preflop" {
+				m.lastRaise = c.bb
+				if c.bb == 0 {
+					m.lastRaise = c.bd
+				}
+			}
 			if roundIdx[st.Round] >= 2 && movable(gs) < 2 {
 				m.V("C05", "no_betting_without_two_stacks", fmt.Sprintf("%s betting round opened with %d players holding chips", st.Round, movable(gs)))
 			}
@@ -345,6 +359,15 @@ func (m *engineMon) afterOp(opLine string, pre *pokerface.GameState, err error) 
 			o.Count("engine.round_closed_by_action")
 			o.Mark("C05", fmt.Sprintf("%s/%d/%d/%d/%d/%s/%v", st.Round, n, alive(gs), movable(gs), m.quiet, op.act, wentAllin))
 		}
+	}
+	// a round closed without any action (skipped): nobody with chips may still owe a call
+	if pre != nil && err == nil && op.kind != "act" && st.CurrentEvent == "RoundClosed" && pre.Status.CurrentEvent != "RoundClosed" && alive(gs) >= 2 {
+		for _, p := range gs.Players {
+			if !p.Fold && p.StackSize > 0 && p.Wager < st.CurrentWager {
+				m.V("C05", "no_premature_close", fmt.Sprintf("%s closed the %s round without a turn for seat %d (stack %d) who has put in %d of the %d to match", opLine, st.Round, p.Idx, p.StackSize, p.Wager, st.CurrentWager))
+			}
+		}
+		o.Mark("C05", fmt.Sprintf("skip/%s/%d/%d/%d", st.Round, n, alive(gs), movable(gs)))
 	}
 	if pre != nil && err == nil && op.kind == "next" && m.aloneAt >= 0 {
 		if st.CurrentEvent != "GameClosed" || st.CurrentDeckPosition != m.aloneAt || len(st.Board) != len(pre.Status.Board) {
@@ -433,17 +456,21 @@ func (m *engineMon) afterOp(opLine string, pre *pokerface.GameState, err error) 
 			if c.limit != "pot" && op.x > pcw {
 				inc := op.x - pcw
 				allin := qp.StackSize == 0 && qp.Wager == pp.InitialStackSize
-				if op.x < pp.InitialStackSize && inc >= pprev {
+				_ = pprev
+				if op.x < pp.InitialStackSize && inc >= m.lastRaise {
 					if st.CurrentWager != op.x || st.CurrentRaiser != actor || st.PreviousRaiseSize != inc || qp.Wager != op.x {
-						m.V("C12", "raise_exact", fmt.Sprintf("%s (wager to match %d, previous raise %d, stack at round start %d): wager to match %d, raiser %d, minimum raise %d, wager %d",
-							opLine, pcw, pprev, pp.InitialStackSize, st.CurrentWager, st.CurrentRaiser, st.PreviousRaiseSize, qp.Wager))
+						m.V("C12", "raise_exact", fmt.Sprintf("%s (wager to match %d, previous bet or raise %d, stack at round start %d): wager to match %d, raiser %d, minimum raise %d, wager %d",
+							opLine, pcw, m.lastRaise, pp.InitialStackSize, st.CurrentWager, st.CurrentRaiser, st.PreviousRaiseSize, qp.Wager))
 					}
 					o.Mark("C12", fmt.Sprintf("exact/%d/%d/%d", pcw, pprev, inc))
 				}
-				if inc < pprev && !allin {
-					m.V("C12", "raise_undersized", fmt.Sprintf("%s lifts the wager to match %d by %d, less than the previous raise %d, and was carried out", opLine, pcw, inc, pprev))
+				if inc < m.lastRaise && !allin {
+					m.V("C12", "raise_undersized", fmt.Sprintf("%s lifts the wager to match %d by %d, less than the previous bet or raise %d, and was carried out", opLine, pcw, inc, m.lastRaise))
 				}
 			}
+		}
+		if d := st.CurrentWager - pcw; d > 0 && op.act != "call" && (pcw == 0 || d >= m.lastRaise) {
+			m.lastRaise = d
 		}
 		if st.Round == pre.Status.Round && st.CurrentWager < pcw {
 			m.V("C12", "cw_monotone", fmt.Sprintf("%s lowered the wager to match from %d to %d", opLine, pcw, st.CurrentWager))
